@@ -71,7 +71,10 @@ impl<const BITS: usize, const LIMBS: usize> Uint<BITS, LIMBS> {
 
     #[inline]
     fn randomize_with_impl<R: rand::RngCore + ?Sized>(&mut self, rng: &mut R) {
-        rng.fill(&mut self.limbs[..]);
+        // Fill a copy so that `self` is left untouched (and canonical) if `rng` panics.
+        let mut limbs = self.limbs;
+        rng.fill(&mut limbs[..]);
+        self.limbs = limbs;
         self.apply_mask();
     }
 }
